@@ -2160,7 +2160,7 @@ theorem inv_handler_rej {g : Graph} {s s' : St} (hI : Inv g s) {y hh : Nat} {nex
     split at hX
     · rw [htr']; exact Or.inr (Or.inr (causeIn_mono _ hroot0))
     · exact Or.inl hX
-  · rw [htr']; exact traceOk_snoc hI.ok ⟨H.ih, H.sb rfl, hroot0⟩
+  · rw [htr']; exact traceOk_snoc hI.ok ⟨H.ih, H.sb rfl, Or.inr hroot0⟩
 
 /-- what is known after one `Runner.Run` of a handler (or its omission): either the try goroutine
 moved on and the handler (if it was to be run) exists and its acceptance is in the trace, or the
